@@ -75,7 +75,11 @@ impl ClientDialogBuilder {
         &mut self,
         response: &TsxResponse,
     ) -> Result<Dialog, HeaderError> {
-        assert_eq!(response.line.code.kind(), CodeKind::Success);
+        // early dialogs are created from provisional responses (101-199), confirmed ones from 2xx
+        assert!(matches!(
+            response.line.code.kind(),
+            CodeKind::Provisional | CodeKind::Success
+        ));
         assert!(response.base_headers.to.tag.is_some());
 
         let dialog = Dialog {
